@@ -531,8 +531,9 @@ def _enter(qual, kind, names, varname, args, kwargs, name):
     return frame, (tuple(new_args), new_kwargs) if changed else None
 
 
-def _register_ctor_aliases(frame, obj, qual):
-    """After __init__: remember which array attributes of the new object alias arrays passed by the caller."""
+def _register_ctor_aliases(frame, obj, qual, merge=False):
+    """After __init__ (or a property setter, merge=True): remember which array attributes of the object alias arrays
+    passed by the caller."""
     d = getattr(obj, "__dict__", None)
     if not isinstance(d, dict):
         return
@@ -548,7 +549,12 @@ def _register_ctor_aliases(frame, obj, qual):
                         al[k] = (None, f"{qual}:{path}")
                     break
     try:  # the outermost __init__ exits last and therefore decides (its caller is the user of the class)
-        if al:
+        if merge:
+            if al:
+                old = dict(M.aliases.get(obj) or {})
+                old.update(al)
+                M.aliases[obj] = old
+        elif al:
             M.aliases[obj] = al
         elif obj in M.aliases:
             del M.aliases[obj]
@@ -604,6 +610,8 @@ def _exit(frame, exc, result_obj=None, is_init=False):
                 sink.observe("method changed an array attribute of self (not known to alias caller data)", subject=f"{frame.qual}:self.{it.path}", sig=sig)
     if is_init and exc is None and result_obj is not None:
         _register_ctor_aliases(frame, result_obj, frame.qual)
+    elif exc is None and frame.qual.endswith("=") and frame.self_obj is not None:
+        _register_ctor_aliases(frame, frame.self_obj, frame.qual, merge=True)
     if exc is not None and isinstance(exc, ValueError) and "read-only" in str(exc) and not getattr(exc, "__gridrv_reported__", False):
         from gridrv import core
 
@@ -733,6 +741,13 @@ def install(sink):
                         if k.startswith("_") and k not in _SPECIAL:
                             continue
                         if isinstance(raw, property):
+                            # public property SETTERS are state-changing public operations: wrap fset ("Grid.weights=")
+                            fs = raw.fset
+                            if fs is not None and inspect.isfunction(fs) and not hasattr(fs, "__gridrv_orig__"):
+                                w = _make_wrapper(fs, f"{cls.__name__}.{k}=", "method", k + "=")
+                                setattr(cls, k, property(raw.fget, w, raw.fdel, raw.__doc__))
+                                M.undo.append((cls, k, raw))
+                                names.append(f"{cls.__name__}.{k}=")
                             continue
                         if isinstance(raw, (classmethod, staticmethod)):
                             fn = raw.__func__
